@@ -4,6 +4,7 @@ import (
 	"fmt"
 	"regexp"
 	"strings"
+	"sync"
 )
 
 // Obligation is one verification condition: under the recorded prefix of
@@ -25,6 +26,7 @@ type Obligation struct {
 	Result *SolveResult
 	Extra  []string // extra lines local to this obligation (axiom instances etc.)
 	Keep   bool
+	ExtraFn func(rel map[string]bool) []string
 }
 
 type VC struct {
@@ -37,6 +39,9 @@ type VC struct {
 	Inputs []string // smt const names of the inputs (params, logical vars, globals)
 	// Assumptions made from outside (assumed contracts etc.) for evidence
 	Notes []string
+	mu    sync.Mutex
+	linfo []*lineInfo
+	always map[int]bool
 }
 
 var identSan = regexp.MustCompile(`[^A-Za-z0-9_]`)
@@ -82,6 +87,18 @@ func (v *VC) assume(t T) {
 	v.emit("(assert " + t.S + ")")
 }
 
+// assumeAlways adds an assumption that every obligation's slice keeps (preconditions, case assumptions).
+func (v *VC) assumeAlways(t T) {
+	if t.B != nil && *t.B {
+		return
+	}
+	if v.always == nil {
+		v.always = map[int]bool{}
+	}
+	v.always[len(v.lines)] = true
+	v.emit("(assert " + t.S + ")")
+}
+
 func (v *VC) comment(s string) {
 	v.emit("; " + strings.ReplaceAll(s, "\n", " "))
 }
@@ -90,6 +107,122 @@ func (v *VC) oblige(id, kind string, pc, goal T, note, pos string) *Obligation {
 	o := &Obligation{ID: v.Func + "/" + id, Func: v.Func, Kind: kind, NLines: len(v.lines), PC: pc, Goal: goal, Note: note, Pos: pos, vc: v}
 	v.Obls = append(v.Obls, o)
 	return o
+}
+
+var symRe = regexp.MustCompile(`\|[^|]+\|`)
+var defRe = regexp.MustCompile(`^\(assert \(= (\|[^|]+\|) `)
+var declRe = regexp.MustCompile(`^\(declare-const (\|[^|]+\|) `)
+
+type lineInfo struct {
+	syms []string
+	def  string // symbol defined by this line ("" if a fact)
+	decl string // symbol declared by this line
+}
+
+func (v *VC) info(i int) *lineInfo {
+	v.mu.Lock()
+	defer v.mu.Unlock()
+	for len(v.linfo) <= i {
+		l := v.lines[len(v.linfo)]
+		li := &lineInfo{}
+		if strings.HasPrefix(l, ";") {
+			v.linfo = append(v.linfo, li)
+			continue
+		}
+		seen := map[string]bool{}
+		for _, m := range symRe.FindAllString(l, -1) {
+			if !seen[m] {
+				seen[m] = true
+				li.syms = append(li.syms, m)
+			}
+		}
+		if m := declRe.FindStringSubmatch(l); m != nil {
+			li.decl = m[1]
+		} else if m := defRe.FindStringSubmatch(l); m != nil {
+			li.def = m[1]
+		}
+		v.linfo = append(v.linfo, li)
+	}
+	return v.linfo[i]
+}
+
+// slice returns the indices of the VC lines relevant to the obligation
+// (cone of influence; dropping assumptions is always sound) and the relevant symbols.
+func (o *Obligation) slice() ([]int, map[string]bool) {
+	v := o.vc
+	rel := map[string]bool{}
+	for _, m := range symRe.FindAllString(o.PC.S+" "+o.Goal.S, -1) {
+		rel[m] = true
+	}
+	inputs := map[string]bool{}
+	for _, in := range v.Inputs {
+		inputs[in] = true
+	}
+	n := o.NLines
+	included := make([]bool, n)
+	if n > 0 {
+		v.info(n - 1)
+	}
+	for i := range v.always {
+		if i < n {
+			included[i] = true
+			for _, s := range v.linfo[i].syms {
+				rel[s] = true
+			}
+		}
+	}
+	changed := true
+	for changed {
+		changed = false
+		for i := 0; i < n; i++ {
+			if included[i] {
+				continue
+			}
+			li := v.linfo[i]
+			if li.decl != "" || len(li.syms) == 0 {
+				continue
+			}
+			take := false
+			if li.def != "" {
+				take = rel[li.def]
+			} else {
+				onlyInputs := true
+				for _, s := range li.syms {
+					if !inputs[s] {
+						onlyInputs = false
+						if rel[s] {
+							take = true
+							break
+						}
+					}
+				}
+				if onlyInputs {
+					take = true
+				}
+			}
+			if take {
+				included[i] = true
+				changed = true
+				for _, s := range li.syms {
+					rel[s] = true
+				}
+			}
+		}
+	}
+	var idx []int
+	for i := 0; i < n; i++ {
+		li := v.linfo[i]
+		if li.decl != "" {
+			if rel[li.decl] {
+				idx = append(idx, i)
+			}
+			continue
+		}
+		if included[i] || (len(li.syms) == 0 && !strings.HasPrefix(v.lines[i], ";")) {
+			idx = append(idx, i)
+		}
+	}
+	return idx, rel
 }
 
 // SMT text for an obligation.
@@ -104,9 +237,16 @@ func (o *Obligation) SMT(prelude string, produceModels bool) string {
 	if o.Note != "" {
 		sb.WriteString("; " + strings.ReplaceAll(o.Note, "\n", " ") + "\n")
 	}
-	for _, l := range o.vc.lines[:o.NLines] {
-		sb.WriteString(l)
+	idx, rel := o.slice()
+	for _, i := range idx {
+		sb.WriteString(o.vc.lines[i])
 		sb.WriteByte('\n')
+	}
+	if o.ExtraFn != nil {
+		for _, l := range o.ExtraFn(rel) {
+			sb.WriteString(l)
+			sb.WriteByte('\n')
+		}
 	}
 	for _, l := range o.Extra {
 		sb.WriteString(l)
